@@ -288,6 +288,13 @@ func (c *ctx) origins(e ast.Expr) oset {
 		return res
 	}
 	t := c.typeOf(e)
+	// `v, ok := m[k]` / `v, ok := x.(T)`: the recorded type is the pair (T, bool)
+	if tup, ok := t.(*types.Tuple); ok && tup.Len() == 2 {
+		switch e.(type) {
+		case *ast.IndexExpr, *ast.TypeAssertExpr:
+			t = tup.At(0).Type()
+		}
+	}
 	switch x := e.(type) {
 	case *ast.ParenExpr:
 		return c.origins(x.X)
@@ -1057,6 +1064,37 @@ func (c *ctx) stmt(s ast.Stmt) string {
 				}
 			}
 		}
+		// `return x.helper(...)`: the helper's summary says which fields of its receiver the returned
+		// references point into; if x is the instance, they are the instance's guarded data
+		if c.depth == 0 {
+			for _, r := range x.Results {
+				call, ok := ast.Unparen(r).(*ast.CallExpr)
+				if !ok {
+					continue
+				}
+				callee := c.calleeOf(call)
+				se, isSel := call.Fun.(*ast.SelectorExpr)
+				if callee == nil || !isSel || c.w.summ[callee] == nil {
+					continue
+				}
+				var escs []origin
+				for eo := range c.w.summ[callee].escapes {
+					if eo.param == -1 && eo.field != nil && c.w.written[eo.field] {
+						escs = append(escs, eo)
+					}
+				}
+				sort.Slice(escs, func(i, j int) bool { return escs[i].field.Name() < escs[j].field.Name() })
+				for _, eo := range escs {
+					recv := c.addrOrigins(se.X)
+					recv.add(c.origins(se.X))
+					for _, co := range sortedOrigins(recv) {
+						if g, ok := c.inst[co.param]; ok && co.field == nil && g.loc(eo.field) >= 0 {
+							ps = append(ps, act(fmt.Sprintf("(AEscape %d)", g.loc(eo.field))))
+						}
+					}
+				}
+			}
+		}
 		ps = append(ps, c.deferredTerm(), "SRet")
 		return seq(ps)
 	case *ast.DeferStmt:
@@ -1422,6 +1460,28 @@ func (w *world) summarise() {
 				s.fresh = fresh
 				changed = true
 			}
+			// references this function returns into (fields of) its parameters: a locking method that
+			// returns the result of such a helper hands them on to ITS caller
+			ast.Inspect(fd.decl.Body, func(n ast.Node) bool {
+				switch x := n.(type) {
+				case *ast.FuncLit:
+					return false
+				case *ast.ReturnStmt:
+					for _, r := range x.Results {
+						t := c.typeOf(r)
+						if t == nil || !refLike(t) || w.deepImmutable(t, 0) {
+							continue
+						}
+						for o := range c.origins(r) {
+							if o.field != nil && !s.escapes[o] {
+								s.escapes[o] = true
+								changed = true
+							}
+						}
+					}
+				}
+				return true
+			})
 		}
 		// fields written through summaries: x.f.M() where M writes its receiver
 		for _, pi := range w.pkgs {
